@@ -13,7 +13,7 @@ import numpy as np
 
 from sim import core
 from sim.fsseam import FsSeam
-from sim.preds import (gen_interval, gen_level_pred, gen_value_pred, interval_accepts, interval_func, level_accepts, level_func, value_accepts,
+from sim.preds import (CALLABLE_KINDS, as_callable, gen_interval, gen_level_pred, gen_value_pred, interval_accepts, interval_func, level_accepts, level_func, value_accepts,
                        value_func)
 from sim.wcheck import Disk, MeshView, compare_full, components, gen_world_params
 from checks.c01 import world_reductions
@@ -111,6 +111,7 @@ def generate(rng, tier):
     for s in sels:
         s["warm"] = rng.random() < 0.25
         s["on_loaded"] = rng.random() < 0.2
+        s["callable"] = rng.choice(CALLABLE_KINDS)
     return {"world": p, "selections": sels}
 
 
@@ -157,12 +158,15 @@ def execute(case, stats):
                       if all(interval_accepts(s, w, c) for s in sel["intervals"]) and all(value_accepts(s, w, c) for s in sel["values"])
                       and (sel["cpu_list"] is None or c["cpu"] in sel["cpu_list"])]
             fsel = {}
+            ck = sel.get("callable")
+            if ck not in (None, "function"):
+                stats.inc("probe.predicates_given_as_" + ck)
             if lv is not None:
-                fsel["level"] = level_func(lv)
+                fsel["level"] = as_callable(level_func(lv), ck)
             for s in sel["intervals"]:
-                fsel[s["var"]] = interval_func(s, w)
+                fsel[s["var"]] = as_callable(interval_func(s, w), ck)
             for s in sel["values"]:
-                fsel[s["var"]] = value_func(s, w)
+                fsel[s["var"]] = as_callable(value_func(s, w), ck)
             kw = {}
             if fsel:
                 kw["select"] = {"mesh": fsel}
@@ -248,7 +252,7 @@ def measure(case):
     sels = case["selections"]
     return (len(sels), p["ncpu"], p["levelmax"], sum(len(s["intervals"]) + len(s["values"]) + (1 if s["cpu_list"] else 0) for s in sels),
             p["maxcells"], len(p["hydro_vars"]) + sum(1 for s in sels if s.get("level")), int(bool(p["grav"])) + int(bool(p["rt_vars"])) + int(p["sink"] is not None), p["nboundary"],
-            int(p["units"] != [1.0, 1.0, 1.0]), int(p["ghost_p"] * 10), p["noutput"], int(p["key_quad"]), p["levelmin"], sum(1 for s in sels if s.get("warm")) + sum(1 for s in sels if s.get("on_loaded")))
+            int(p["units"] != [1.0, 1.0, 1.0]), int(p["ghost_p"] * 10), p["noutput"], int(p["key_quad"]), p["levelmin"], sum(1 for s in sels if s.get("warm")) + sum(1 for s in sels if s.get("on_loaded")) + sum(1 for s in sels if s.get("callable") not in (None, "function")))
 
 
 def reductions(case, viol):
@@ -283,3 +287,5 @@ def reductions(case, viol):
             yield dict(case, selections=sels[:i] + [dict(s, warm=False)] + sels[i + 1:])
         if s.get("on_loaded"):
             yield dict(case, selections=sels[:i] + [dict(s, on_loaded=False)] + sels[i + 1:])
+        if s.get("callable") not in (None, "function"):
+            yield dict(case, selections=sels[:i] + [dict(s, callable="function")] + sels[i + 1:])
